@@ -385,6 +385,60 @@ def ob_private_key_bytes():
                           ["g_mul, is_valid -> uninterpreted"])
 
 
+def ob_hex_wrappers():
+    """the thin public wrappers: to_bytes(compress) = point.to_byte_be(compress); to_hex_string hex-encodes exactly those bytes;
+    the private key's hex / byte forms encode the big-endian bytes of d"""
+    def body(stats):
+        c = load_crate(CRATE)
+        for compress in (False, True):
+            def run(ctx):
+                dom = BV(); ex = Ex(c, dom, ctx)
+                W = Sm2World(dom, ctx)
+                log = []
+                s = W.summaries(None)
+                def tbb(ex_, argv):
+                    n = 33 if argv[1].v else 65
+                    out = z3.BitVec("TBB_%d" % len(log), 8 * n)
+                    log.append(("to_byte_be", pt_term(dom, ex_.load(argv[0])), bool(argv[1].v), out))
+                    return Agg(split_bytes(out, n), name="Vec")
+                def hexenc(ex_, argv):
+                    vals = slice_vals(ex_, argv[0]) if isinstance(argv[0], Ref) and argv[0].rng is not None else ex_.load(argv[0]).f
+                    log.append(("hex", [dom.term(v) for v in vals]))
+                    return Opaque("String")
+                s.update({"Point::to_byte_be": tbb, "<Vec<u8> as ToHex>::encode_hex::<String>": hexenc})
+                ex.summaries = s
+                P, d = z3.BitVec("P", 768), z3.BitVec("d", 256)
+                pk = Agg([pt_val(P)], name="Sm2PublicKey")
+                sk = Agg([u256_val(d), Agg([pt_val(P)], name="Sm2PublicKey")], name="Sm2PrivateKey")
+                b = ex.run_fn(c.find("Sm2PublicKey::to_bytes"), [Ref(Cell(pk, "pk")), Sc(compress, "bool")])
+                n0 = len(log)
+                ex.run_fn(c.find("Sm2PublicKey::to_hex_string"), [Ref(Cell(pk, "pk")), Sc(compress, "bool")])
+                n1 = len(log)
+                ex.run_fn(c.find("Sm2PrivateKey::to_hex_string"), [Ref(Cell(sk, "sk"))])
+                return dom, log, (n0, n1), P, d, b
+            paths = explore(run, max_paths=4)
+            check_all_panics(stats, paths)
+            for ctx, (dom, log, (n0, n1), P, d, b) in live_paths(paths):
+                hy = ctx.facts + ctx.pc
+                if n0 != 1 or log[0][0] != "to_byte_be":
+                    raise Violation("Sm2PublicKey::to_bytes does not encode through Point::to_byte_be")
+                n = 33 if compress else 65
+                discharge(stats, hy, z3.And(log[0][1] == P, z3.BoolVal(log[0][2] == compress), z3.Concat(*[dom.term(x) for x in b.f]) == log[0][3], z3.BoolVal(len(b.f) == n)),
+                          "to_bytes(compress) = to_byte_be(point, compress)")
+                hx = [e for e in log[n0:n1] if e[0] == "hex"]; tb = [e for e in log[n0:n1] if e[0] == "to_byte_be"]
+                if len(hx) != 1 or len(tb) != 1:
+                    raise Violation("Sm2PublicKey::to_hex_string: %d encodings, %d hex conversions" % (len(tb), len(hx)))
+                discharge(stats, hy, z3.And(tb[0][1] == P, z3.BoolVal(tb[0][2] == compress), z3.BoolVal(len(hx[0][1]) == n), z3.Concat(*hx[0][1]) == tb[0][3]),
+                          "to_hex_string(compress) hex-encodes exactly to_byte_be(point, compress)")
+                hx2 = [e for e in log[n1:] if e[0] == "hex"]
+                if len(hx2) != 1 or len(hx2[0][1]) != 32:
+                    raise Violation("Sm2PrivateKey::to_hex_string does not hex-encode 32 bytes")
+                discharge(stats, hy, z3.Concat(*hx2[0][1]) == d, "private key hex form encodes the big-endian bytes of d")
+        return {}
+    return run_obligation("hex_and_byte_wrappers", ["gm_sm2::key::Sm2PublicKey::to_bytes", "gm_sm2::key::Sm2PublicKey::to_hex_string", "gm_sm2::key::Sm2PrivateKey::to_hex_string"],
+                          "all keys, both compression flags", body, ["Point::to_byte_be -> uninterpreted (to_byte_be_* obligations)", "hex::ToHex::encode_hex -> capturing (third-party)"])
+
+
 def ob_to_byte_be(compress):
     """Point::to_byte_be: tag and coordinates come from the AFFINE form of the point, for any Jacobian representation"""
     def body(stats):
@@ -419,7 +473,7 @@ def ob_to_byte_be(compress):
 
 
 def run(tier, seed, t0):
-    jobs = [ob_pubkey_new_validates, ob_private_key_bytes, ob_pubkey_from_hex, ob_spki_try_from, lambda: ob_to_byte_be(True), lambda: ob_to_byte_be(False)]
+    jobs = [ob_pubkey_new_validates, ob_private_key_bytes, ob_pubkey_from_hex, ob_spki_try_from, lambda: ob_to_byte_be(True), lambda: ob_to_byte_be(False), ob_hex_wrappers]
     import c11
     jobs += [lambda: c11.ob_pow("fp_pow", "SM2_SQRT_EXP", (c11.P2 + 1) // 4, "((p+1)/4)")]
     jobs += [(lambda L=L: ob_from_byte_lengths(L)) for L in ([0, 1, 32, 33, 34, 64, 65, 66] if tier == "quick" else range(0, 70))]
